@@ -1603,11 +1603,11 @@ def ownEntry (par : Option Nat) (f : Fields) : List (Nat × Option Nat) :=
 
 theorem parentMap_leaf (par : Option Nat) (n : Nat) (f : Fields) :
     parentMap par (leaf n f) = ownEntry par f := by
-  simp only [parentMap, ownEntry]
+  cases hf : f.uid <;> simp [parentMap, ownEntry, hf]
 
 theorem parentMap_node (par : Option Nat) (f : Fields) (ks : List Tree) :
     parentMap par (node f ks) = ownEntry par f ++ parentMapL f.uid ks := by
-  simp only [parentMap, ownEntry]
+  cases hf : f.uid <;> simp [parentMap, ownEntry, hf]
 
 theorem ownEntry_filter_ne (par : Option Nat) (f : Fields) (u : Nat) (h : f.uid ≠ some u) :
     (ownEntry par f).filter (fun e => e.1 == u) = [] := by
@@ -1772,10 +1772,8 @@ theorem find?_of_nodup_fst {α} (l : List (Nat × α)) (hn : (l.map (·.1)).Nodu
 /-- generic closing argument: nodes that are not `free` tokens keep their parent when the
     parent of every uid not carried by a `free` token is unchanged -/
 theorem parentsKept_of_inv (t r : Tree) (free : Tree → Bool) (hu : uidsOK t = true)
-    (hfree : ∀ s, free s = true → s.isLeaf = true)
     (hinv : ∀ u, (∀ l ∈ t.leaves, free l = true → l.fields.uid ≠ some u) →
-      parentOfUid r u = parentOfUid t u)
-    (hfl : ∀ s, s.isLeaf = true → s ∈ subtrees t → s ∈ leaves t) :
+      parentOfUid r u = parentOfUid t u) :
     parentsKept t r free = true := by
   unfold parentsKept
   rw [List.all_eq_true]
@@ -1806,5 +1804,417 @@ theorem parentsKept_of_inv (t r : Tree) (free : Tree → Bool) (hu : uidsOK t = 
           hs2 huid
         rw [this, hfl'] at hf
         cases hf
+
+/-! ### nothing else moves -/
+
+/-- the parent of every uid not carried by a `free` token of `t` is as in `t` -/
+def PK (t : Tree) (free : Tree → Bool) (cur : Tree) : Prop :=
+  ∀ u, (∀ l ∈ t.leaves, free l = true → l.fields.uid ≠ some u) → parentOfUid cur u = parentOfUid t u
+
+theorem moveLeafBeside_PK {t cur : Tree} (h : Inv t cur) (hn : t.leafNums.Nodup) (free : Tree → Bool)
+    (i j : Nat) (hfree : ∀ l, cur.findLeaf i = some l → free l = true) (hpk : PK t free cur) :
+    PK t free (moveLeafBeside cur i j) := by
+  intro u hu
+  rw [← hpk u hu]
+  exact moveLeafBeside_parentOfUid cur i j u (h.nodup hn)
+    (fun l hl => hu l (h.perm.subset (findLeaf_mem cur i l hl).1) (hfree l hl))
+
+def freePunct (s : Tree) : Bool := s.isLeaf && isPunctWord s
+def freePair (s : Tree) : Bool := s.isLeaf && isPairPunctWord s
+
+theorem freePunct_of_findLeaf {t cur : Tree} (h : Inv t cur) (hn : t.leafNums.Nodup) (i : Nat)
+    (hp : ∃ l, t.findLeaf i = some l ∧ isPunctWord l = true) :
+    ∀ l, cur.findLeaf i = some l → freePunct l = true := by
+  intro l hl
+  obtain ⟨l', hl', hpl⟩ := hp
+  rw [h.findLeaf hn, hl'] at hl
+  cases hl
+  obtain ⟨g, rfl⟩ := findLeaf_isLeaf t i _ hl'
+  simp [freePunct, hpl]
+
+theorem verylowStep_PK {t cur : Tree} (h : Inv t cur) (hn : t.leafNums.Nodup) (i : Nat)
+    (hc : VCand t i) (hpk : PK t freePunct cur) : PK t freePunct (verylowStep cur i) := by
+  unfold verylowStep
+  split
+  · exact hpk
+  · split
+    · exact hpk
+    · exact moveLeafBeside_PK h hn freePunct i (i - 1) (freePunct_of_findLeaf h hn i hc.punct) hpk
+
+theorem verylow_PK (t : Tree) (h : WF t = true) : PK t freePunct (punctuationVerylow t) := by
+  have hc := (verylowCands_spec t h).2
+  have hnd := WF_nodup t h
+  have : Inv t (punctuationVerylow t) ∧ PK t freePunct (punctuationVerylow t) := by
+    show (fun c => Inv t c ∧ PK t freePunct c) ((verylowCands t).foldl verylowStep t)
+    refine foldl_inv (fun c => Inv t c ∧ PK t freePunct c) verylowStep _ t ?_
+      ⟨Inv.refl t h, fun _ _ => rfl⟩
+    intro cur i hi hcur
+    obtain ⟨a, b, c, d⟩ := hc i hi
+    exact ⟨verylowStep_inv' hcur.1 hnd i ⟨a, b, c, d⟩, verylowStep_PK hcur.1 hnd i ⟨a, b, c, d⟩ hcur.2⟩
+  exact this.2
+
+theorem rootCands_punct (t : Tree) (h : WF t = true) :
+    ∀ i ∈ rootCands t, ∃ l, t.findLeaf i = some l ∧ isPunctWord l = true := by
+  intro i hi
+  unfold rootCands at hi
+  obtain ⟨l, hl, rfl⟩ := List.mem_map.1 hi
+  obtain ⟨hl1, hlp⟩ := List.mem_filter.1 hl
+  exact ⟨l, findLeaf_of_mem_nodup t l (WF_nodup t h) ((mem_terminals t l).1 hl1), hlp⟩
+
+theorem rootStep_PK {t cur : Tree} (h : Inv t cur) (hn : t.leafNums.Nodup) (i : Nat)
+    (hp : ∃ l, t.findLeaf i = some l ∧ isPunctWord l = true) (hpk : PK t freePunct cur) :
+    PK t freePunct (rootStep cur i) := by
+  unfold rootStep
+  split
+  · split
+    · rename_i l hl
+      intro u hu
+      rw [← hpk u hu]
+      have hfr := freePunct_of_findLeaf h hn i hp l hl
+      have hm := h.perm.subset (findLeaf_mem cur i l hl).1
+      obtain ⟨g, rfl⟩ := findLeaf_isLeaf cur i l hl
+      exact rootMove_parentOfUid cur i u (h.nodup hn) g hl (hu _ hm hfr)
+    · exact hpk
+  · exact hpk
+
+theorem root_PK (t : Tree) (h : WF t = true) : PK t freePunct (punctuationRoot t) := by
+  have hc := rootCands_punct t h
+  have hnd := WF_nodup t h
+  have : Inv t (punctuationRoot t) ∧ PK t freePunct (punctuationRoot t) := by
+    show (fun c => Inv t c ∧ PK t freePunct c) ((rootCands t).foldl rootStep t)
+    refine foldl_inv (fun c => Inv t c ∧ PK t freePunct c) rootStep _ t ?_
+      ⟨Inv.refl t h, fun _ _ => rfl⟩
+    intro cur i hi hcur
+    exact ⟨rootStep_inv hcur.1 hnd i, rootStep_PK hcur.1 hnd i (hc i hi) hcur.2⟩
+  exact this.2
+
+theorem symPull_PK {t : Tree} (hw : WF t = true) (first last : Nat) (s : SymState) (i : Nat)
+    (left : Bool) (h : Inv t s.cur) (hpk : PK t freePair s.cur) :
+    PK t freePair (symPull first last s i left).cur := by
+  rcases symPull_cases first last s i left with he | ⟨p, cand, _, _, hpair, _, _, he⟩
+  · rw [he]; exact hpk
+  · rw [he]
+    refine moveLeafBeside_PK h (WF_nodup t hw) freePair cand i ?_ hpk
+    intro l hl
+    unfold wordIsPair at hpair
+    rw [hl] at hpair
+    obtain ⟨g, rfl⟩ := findLeaf_isLeaf s.cur cand l hl
+    simp only at hpair
+    simp [freePair, hpair]
+
+theorem symStep_PK {t : Tree} (hw : WF t = true) (first last : Nat) (s : SymState) (i : Nat)
+    (h : Inv t s.cur) (hpk : PK t freePair s.cur) : PK t freePair (symStep first last s i).cur := by
+  unfold symStep
+  split
+  · exact hpk
+  · simp only
+    split
+    · exact symPull_PK hw first last s i true h hpk
+    · exact symPull_PK hw first last _ i false (symPull_inv hw first last s i true h)
+        (symPull_PK hw first last s i true h hpk)
+
+theorem sym_PK (relc : Option Str) (t : Tree) (h : WF t = true) :
+    PK t freePair (punctuationSymetrify relc t) := by
+  unfold punctuationSymetrify
+  simp only
+  have := foldl_inv (fun (s : SymState) => Inv t s.cur ∧ PK t freePair s.cur)
+    (symStep ((t.terminals.head?.map num).getD 0) ((t.terminals.getLast?.map num).getD 0))
+    (match relc with
+      | none => (t.terminals.filter isPairPunctWord).map num
+      | some r => relcCands r t.terminals)
+    { cur := t, done := [] }
+    (fun s i _ hs => ⟨symStep_inv h _ _ s i hs.1, symStep_PK h _ _ s i hs.1 hs.2⟩)
+    ⟨Inv.refl t h, fun _ _ => rfl⟩
+  exact this.2
+
+/-! ### `symetrifyOK` -/
+
+mutual
+/-- with distinct numbers, the constituent that directly contains `b` is the parent of `b` -/
+theorem parentOfLeaf_of_hasKid (a b : Nat) : (t : Tree) → t.leafNums.Nodup → ∀ p,
+    parentOfLeaf a t = some p → hasKid b p.kids = true → parentOfLeaf b t = some p
+  | .leaf n f, _, p, hp, _ => by simp [parentOfLeaf] at hp
+  | .node f ks, hn, p, hp, hb => by
+    simp only [parentOfLeaf] at hp ⊢
+    split at hp
+    · cases hp
+      simp only [kids_node] at hb
+      rw [if_pos hb]
+    · have hbk : hasKid b ks = false := by
+        cases hbk : hasKid b ks with
+        | false => rfl
+        | true =>
+          exfalso
+          obtain ⟨k, hk, hkl, hsub⟩ := parentOfLeafL_leafNums_subset a ks p hp
+          obtain ⟨g', hg'⟩ := (hasKid_iff b ks).1 hbk
+          have hbp : b ∈ p.leafNums := by
+            cases hh : p with
+            | leaf n f => rw [hh] at hb; simp at hb
+            | node f' ks' => rw [hh] at hb; exact hasKid_mem_leafNumsL b ks' hb
+          rw [leafNums_node] at hn
+          have := eq_of_nodup_flatMap leafNums ks hn k hk _ hg' b (hsub b hbp) (by simp [leafNums_leaf])
+          rw [this] at hkl
+          simp at hkl
+      rw [if_neg (by simpa using hbk)]
+      exact parentOfLeafL_of_hasKid a b ks hn p hp hb
+theorem parentOfLeafL_of_hasKid (a b : Nat) : (ks : List Tree) → ((leavesL ks).map num).Nodup →
+    ∀ p, parentOfLeafL a ks = some p → hasKid b p.kids = true → parentOfLeafL b ks = some p
+  | [], _, p, hp, _ => by simp [parentOfLeafL] at hp
+  | t :: ts, hn, p, hp, hb => by
+    simp only [leavesL, List.map_append, List.nodup_append] at hn
+    simp only [parentOfLeafL] at hp ⊢
+    cases hpa : parentOfLeaf a t with
+    | some p' =>
+      rw [hpa] at hp
+      cases hp
+      rw [parentOfLeaf_of_hasKid a b t hn.1 p hpa hb]
+    | none =>
+      rw [hpa] at hp
+      simp only at hp
+      cases hpb : parentOfLeaf b t with
+      | none => exact parentOfLeafL_of_hasKid a b ts hn.2.1 p hp hb
+      | some q =>
+        exfalso
+        have hbt := (parentOfLeaf_mem_leafNums b t q hpb).1
+        obtain ⟨k, hk, _, hsub⟩ := parentOfLeafL_leafNums_subset a ts p hp
+        have hbp : b ∈ p.leafNums := by
+          cases hh : p with
+          | leaf n f => rw [hh] at hb; simp at hb
+          | node f' ks' => rw [hh] at hb; exact hasKid_mem_leafNumsL b ks' hb
+        refine hn.2.2 b hbt b ?_ rfl
+        rw [leafNumsL_eq]
+        exact List.mem_flatMap.2 ⟨k, hk, hsub b hbp⟩
+end
+
+theorem leaf_uid_unique (t : Tree) (hu : uidsOK t = true) : ∀ a ∈ t.leaves, ∀ b ∈ t.leaves, ∀ u,
+    a.fields.uid = some u → b.fields.uid = some u → a = b := by
+  simp only [uidsOK, Bool.and_eq_true] at hu
+  intro a ha b hb u hau hbu
+  exact eq_of_filterMap_nodup (·.fields.uid) _ ((nodupB_iff _).1 hu.2) a
+    (leaves_subset_subtrees t a ha) b (leaves_subset_subtrees t b hb) u hau hbu
+
+/-- the anchor token `j` is paired punctuation, or (with `relc`) is followed by a token tagged `relc` -/
+def AnchorOK (relc : Option Str) (t : Tree) (j : Nat) : Prop :=
+  ∃ k, t.findLeaf j = some k ∧ (isPairPunctWord k = true ∨
+    ∃ r, relc = some r ∧ ∃ nx, t.findLeaf (j + 1) = some nx ∧ (nx.fields.label == r) = true)
+
+/-- the moved token `l` sits beside an anchor, and neither will move again -/
+def Good (relc : Option Str) (t : Tree) (s : SymState) (l : Tree) : Prop :=
+  isPairPunctWord l = true ∧ l.num ∈ s.done ∧
+  ∃ j p, j ∈ s.done ∧ j ≠ l.num ∧ AnchorOK relc t j ∧ parentOfLeaf j s.cur = some p ∧
+    hasKid l.num p.kids = true
+
+def SI (relc : Option Str) (t : Tree) (s : SymState) : Prop :=
+  Inv t s.cur ∧ ∀ l ∈ t.leaves, ∀ u, l.fields.uid = some u →
+    parentOfUid s.cur u = parentOfUid t u ∨ Good relc t s l
+
+theorem symPull_cand_ne {t : Tree} (hw : WF t = true) (s : SymState) (h : Inv t s.cur) (i : Nat)
+    (p : Tree) (hp : parentOfLeaf i s.cur = some p) (left : Bool) (cand : Nat)
+    (hcd : cand = if left then leftmost p - 1 else rightmost p + 1) : cand ≠ i := by
+  obtain ⟨_, hip⟩ := parentOfLeaf_mem_leafNums i s.cur p hp
+  have hps : ∀ n ∈ p.leafNums, n ∈ t.leafNums := by
+    intro n hn
+    obtain ⟨l, hl, rfl⟩ := List.mem_map.1 hn
+    refine (h.mem _).1 (List.mem_map.2 ⟨l, ?_, rfl⟩)
+    exact leaves_subset_of_mem_subtrees s.cur p (parentOfLeaf_spec i s.cur p hp).1 l hl
+  have hpne : p.leafNums ≠ [] := List.ne_nil_of_mem hip
+  cases left with
+  | true =>
+    simp only [↓reduceIte] at hcd
+    have h1 := leftmost_le p i hip
+    have h2 := (WF_mem_leafNums t hw _).1 (hps _ (leftmost_mem p hpne))
+    omega
+  | false =>
+    simp only [Bool.false_eq_true, ↓reduceIte] at hcd
+    have h1 := le_rightmost p i hip
+    omega
+
+theorem symPull_SI {relc : Option Str} {t : Tree} (hw : WF t = true) (hu : uidsOK t = true)
+    (first last : Nat) (s : SymState) (i : Nat) (left : Bool) (hA : AnchorOK relc t i)
+    (h : SI relc t s) : SI relc t (symPull first last s i left) := by
+  have hnd := WF_nodup t hw
+  have hinv' := symPull_inv hw first last s i left h.1
+  rcases symPull_cases first last s i left with he | ⟨p, cand, hp, hcd, hpair, hdone, _, he⟩
+  · rw [he]; exact h
+  · rw [he] at hinv' ⊢
+    simp only at hinv'
+    refine ⟨hinv', ?_⟩
+    intro l hl u hlu
+    have hcn := h.1.nodup hnd
+    have hne : cand ≠ i := symPull_cand_ne hw s h.1 i p hp left cand hcd
+    have hdone' : cand ∉ s.done := by simpa using hdone
+    unfold wordIsPair at hpair
+    cases hfc : s.cur.findLeaf cand with
+    | none => rw [hfc] at hpair; cases hpair
+    | some lc =>
+      rw [hfc] at hpair
+      simp only at hpair
+      obtain ⟨g, rfl⟩ := findLeaf_isLeaf s.cur cand lc hfc
+      have hlct : leaf cand g ∈ t.leaves := h.1.perm.subset (findLeaf_mem s.cur cand _ hfc).1
+      by_cases hlc : l.num = cand
+      · right
+        have hll : l = leaf cand g := by
+          have := findLeaf_of_mem_nodup s.cur l hcn (h.1.perm.symm.subset hl)
+          rw [hlc, hfc] at this
+          cases this; rfl
+        subst hll
+        have hn' : (removeLeaf cand s.cur).leafNums.Nodup := by
+          rw [removeLeaf_leafNums cand s.cur h.1.isNode hcn]; exact hcn.sublist List.filter_sublist
+        have hp1 : parentOfLeaf i (removeLeaf cand s.cur) = some (removeLeaf cand p) := by
+          rw [parentOfLeaf_removeLeaf i cand (fun e => hne e.symm) s.cur hcn, hp]; rfl
+        obtain ⟨f, ks1, _, hp2⟩ := parentOfLeaf_appendBeside_self i cand g hne _ _ hn' hp1
+        have hmv : moveLeafBeside s.cur cand i =
+            appendBeside i (leaf cand g) (removeLeaf cand s.cur) := by
+          simp only [moveLeafBeside, hfc]
+        refine ⟨hpair, by simp, i, node f (ks1 ++ [leaf cand g]), by simp, fun e => hne e.symm, hA, ?_, ?_⟩
+        · simp only [hmv]; exact hp2
+        · simp [hasKid]
+      · have hpu : parentOfUid (moveLeafBeside s.cur cand i) u = parentOfUid s.cur u := by
+          refine moveLeafBeside_parentOfUid s.cur cand i u hcn ?_
+          intro l' hl' huid
+          rw [hfc] at hl'
+          cases hl'
+          have := leaf_uid_unique t hu _ hlct l hl u huid hlu
+          rw [← this] at hlc
+          exact hlc rfl
+        rcases h.2 l hl u hlu with heq | hgood
+        · left; simp only; rw [hpu, heq]
+        · right
+          obtain ⟨hp1, hd1, j, pj, hjd, hjl, hAj, hpj, hkj⟩ := hgood
+          have hjc : j ≠ cand := fun e => hdone' (e ▸ hjd)
+          obtain ⟨_, f, ks, rfl, _⟩ := parentOfLeaf_spec j s.cur pj hpj
+          have hpj' := parentOfLeaf_moveLeafBeside s.cur hcn h.1.isNode j cand i hjc g hfc _ hpj
+          obtain ⟨ks', e, hk1, _⟩ := kids_after_move cand i g f ks
+          rw [e] at hpj'
+          refine ⟨hp1, by simp [hd1], j, node f ks', by simp [hjd], hjl, hAj, hpj', ?_⟩
+          exact hk1 _ hlc hkj
+
+theorem symStep_SI {relc : Option Str} {t : Tree} (hw : WF t = true) (hu : uidsOK t = true)
+    (first last : Nat) (s : SymState) (i : Nat) (hA : AnchorOK relc t i)
+    (h : SI relc t s) : SI relc t (symStep first last s i) := by
+  unfold symStep
+  split
+  · exact h
+  · simp only
+    split
+    · exact symPull_SI hw hu first last s i true hA h
+    · exact symPull_SI hw hu first last _ i false hA (symPull_SI hw hu first last s i true hA h)
+
+theorem sym_fold_SI {relc : Option Str} {t : Tree} (hw : WF t = true) (hu : uidsOK t = true)
+    (first last : Nat) (todo : List Nat) (hA : ∀ i ∈ todo, AnchorOK relc t i) :
+    SI relc t (todo.foldl (symStep first last) { cur := t, done := [] }) := by
+  refine foldl_inv (SI relc t) (symStep first last) todo _ ?_ ⟨Inv.refl t hw, fun _ _ _ _ => Or.inl rfl⟩
+  intro s i hi hs
+  exact symStep_SI hw hu first last s i (hA i hi) hs
+
+/-- candidates with `relc`: paired punctuation, or the next token is tagged `r` -/
+theorem relcCands_spec (r : Str) : ∀ (terms : List Tree) (s : Nat),
+    terms.map num = List.range' s terms.length → ∀ i ∈ relcCands r terms,
+    ∃ x ∈ terms, x.num = i ∧ (isPairPunctWord x = true ∨
+      ∃ y ∈ terms, y.num = i + 1 ∧ (y.fields.label == r) = true)
+  | [], _, _, i, hi => by simp [relcCands] at hi
+  | [x], _, _, i, hi => by
+    simp only [relcCands] at hi
+    split at hi
+    · rename_i hx
+      simp only [List.mem_singleton] at hi
+      exact ⟨x, by simp, hi.symm, Or.inl hx⟩
+    · simp at hi
+  | x :: y :: rest, s, hr, i, hi => by
+    simp only [List.map_cons, List.length_cons, List.range'_succ, List.cons.injEq] at hr
+    have hr' : (y :: rest).map num = List.range' (s + 1) (y :: rest).length := by
+      simp only [List.map_cons, List.length_cons, List.range'_succ, List.cons.injEq]
+      exact hr.2
+    simp only [relcCands, List.mem_append] at hi
+    rcases hi with hi | hi
+    · split at hi
+      · rename_i hc
+        simp only [List.mem_singleton] at hi
+        simp only [Bool.or_eq_true] at hc
+        refine ⟨x, by simp, hi.symm, ?_⟩
+        rcases hc with hc | hc
+        · exact Or.inl hc
+        · exact Or.inr ⟨y, by simp, by omega, hc⟩
+      · simp at hi
+    · obtain ⟨x', hx', h1, h2⟩ := relcCands_spec r (y :: rest) (s + 1) hr' i hi
+      refine ⟨x', List.mem_cons_of_mem _ hx', h1, ?_⟩
+      rcases h2 with h2 | ⟨y', hy', h3, h4⟩
+      · exact Or.inl h2
+      · exact Or.inr ⟨y', List.mem_cons_of_mem _ hy', h3, h4⟩
+
+theorem sym_cands_anchor (relc : Option Str) (t : Tree) (hw : WF t = true) :
+    ∀ i ∈ (match relc with
+      | none => (t.terminals.filter isPairPunctWord).map num
+      | some r => relcCands r t.terminals), AnchorOK relc t i := by
+  have hnd := WF_nodup t hw
+  have hfind : ∀ x ∈ t.terminals, t.findLeaf x.num = some x := fun x hx =>
+    findLeaf_of_mem_nodup t x hnd ((mem_terminals t x).1 hx)
+  cases relc with
+  | none =>
+    intro i hi
+    simp only at hi
+    obtain ⟨l, hl, rfl⟩ := List.mem_map.1 hi
+    obtain ⟨hl1, hlp⟩ := List.mem_filter.1 hl
+    exact ⟨l, hfind l hl1, Or.inl hlp⟩
+  | some r =>
+    intro i hi
+    simp only at hi
+    have hy : t.terminals.map num = List.range' 1 t.terminals.length := by
+      have := WF_yield t hw
+      unfold yield at this
+      rw [this]
+      congr 1
+      unfold terminals leafNums
+      rw [sortBy_length, List.length_map]
+    obtain ⟨x, hx, rfl, h2⟩ := relcCands_spec r t.terminals 1 hy i hi
+    refine ⟨x, hfind x hx, ?_⟩
+    rcases h2 with h2 | ⟨y, hy', h3, h4⟩
+    · exact Or.inl h2
+    · refine Or.inr ⟨r, rfl, y, ?_, h4⟩
+      rw [← h3]; exact hfind y hy'
+
+theorem sym_SI (relc : Option Str) (t : Tree) (hw : WF t = true) (hu : uidsOK t = true) :
+    ∃ s : SymState, s.cur = punctuationSymetrify relc t ∧ SI relc t s := by
+  unfold punctuationSymetrify
+  simp only
+  exact ⟨_, rfl, sym_fold_SI hw hu _ _ _ (sym_cands_anchor relc t hw)⟩
+
+theorem sym_ok_of_SI (relc : Option Str) (t : Tree) (hw : WF t = true) (s : SymState)
+    (h : SI relc t s) : symetrifyOK relc t s.cur = true := by
+  have hnd := WF_nodup t hw
+  unfold symetrifyOK
+  rw [List.all_eq_true]
+  intro l hl
+  unfold movedTokens at hl
+  obtain ⟨hl1, hl2⟩ := List.mem_filter.1 hl
+  have hlt : l ∈ t.leaves := (mem_terminals t l).1 hl1
+  cases hlu : l.fields.uid with
+  | none => rw [hlu] at hl2; cases hl2
+  | some u =>
+    rw [hlu] at hl2
+    simp only [bne_iff_ne, ne_eq] at hl2
+    rcases h.2 l hlt u hlu with heq | ⟨hpair, _, j, p, _, hjl, ⟨k, hk, hA⟩, hpj, hkid⟩
+    · exact absurd heq.symm hl2
+    · have hcn := h.1.nodup hnd
+      rw [hpair, Bool.true_and, parentOfLeaf_of_hasKid j l.num s.cur hcn p hpj hkid]
+      simp only
+      obtain ⟨g, hg1, hg2⟩ := parentOfLeaf_kid_mem_leaves j s.cur p hpj
+      rw [List.any_eq_true]
+      refine ⟨leaf j g, hg1, ?_⟩
+      have hkk : k = leaf j g := by
+        have := findLeaf_of_mem_nodup t _ hnd (h.1.perm.subset hg2)
+        simp only [num_leaf] at this
+        rw [hk] at this
+        cases this; rfl
+      subst hkk
+      simp only [isLeaf_leaf, num_leaf, Bool.true_and, Bool.and_eq_true, bne_iff_ne, ne_eq,
+        Bool.or_eq_true]
+      refine ⟨hjl, ?_⟩
+      rcases hA with hA | ⟨r, rfl, nx, hnx, hlab⟩
+      · exact Or.inl hA
+      · right
+        simp only
+        rw [h.1.findLeaf hnd, hnx]
+        exact hlab
 
 end TT.Lemmas.Punct
